@@ -475,7 +475,7 @@ class Expectation(Pytree):
 
     def estimate(self, key, args):
         tangents = jtu.tree_map(lambda _: 0.0, args)
-        return self.jvp_estimate(key, tangents).primal
+        return self.jvp_estimate(key, Dual.dual_tree(args, tangents)).primal
 
     ##################################
     # JAX's native `grad` interface. #
